@@ -115,4 +115,17 @@ func timeAscending.CompareTo
   ensures r0 == ((tsec(conv(time.Time, t)) < tsec(conv(time.Time, other)) || (tsec(conv(time.Time, t)) == tsec(conv(time.Time, other)) && tnsec(conv(time.Time, t)) < tnsec(conv(time.Time, other)))) ? 0 - 1 : ((tsec(conv(time.Time, t)) == tsec(conv(time.Time, other)) && tnsec(conv(time.Time, t)) == tnsec(conv(time.Time, other))) ? 0 : 1))
 func timeDescending.CompareTo
   ensures r0 == ((tsec(conv(time.Time, t)) < tsec(conv(time.Time, other)) || (tsec(conv(time.Time, t)) == tsec(conv(time.Time, other)) && tnsec(conv(time.Time, t)) < tnsec(conv(time.Time, other)))) ? 1 : ((tsec(conv(time.Time, t)) == tsec(conv(time.Time, other)) && tnsec(conv(time.Time, t)) == tnsec(conv(time.Time, other))) ? 0 : 0 - 1))
+
+-- Add: every element that is added wakes a poller - unconditionally: several pollers can be asleep on an empty queue, and
+-- the second of two quick additions finds the queue non-empty while the second poller is still asleep
+-- (checked for this statement only - opt only-ghost-asserts: the heap is container/heap's)
+func Queue.Add
+  instantiate T: int
+  opt only-ghost-asserts
+  requires t != nil && t.waitCond != nil
+  modifies everything
+  ghost local notified Bool
+  ghost at entry: notified = false
+  ghost after notify: notified = true
+  ghost at return: assert addedElement != nil ==> notified
 @*/
